@@ -424,4 +424,189 @@ theorem estimator_zero_of_no_difference (g : Bool) (a t b A B C πA πC πG πT 
 
 end real
 
+/-! ## Part 3 — undefined estimators (IEEE special values, `FVal`)
+
+`Gv.Gen.*Distance` evaluated at `FVal`: counts are finite non-negative reals, `log` of a negative
+number and `0/0` are NaN, `x/0` is an infinity, comparisons with NaN are false.  The estimator of a
+pair is *undefined* when no site is comparable (`total = 0`) or a logarithm argument is not
+positive.  `Safe v`: the value cannot end up as a finite entry of the matrix — NaN stays NaN, and
+what `DistMatrix` flags (negative, `+Inf`, above `NT_DIST_OVER`) is replaced by the substitute.
+
+The unchanged jc.go / f81.go / tn93.go end with `if dist > 0 { return dist } else { return 0 }`,
+which turns NaN into 0: for them the property is **false**, and the second disjunct of the
+`…_or_witness` theorems is the proof of that (`AAAA` vs `CCCC`: 4 differences on 4 sites ↦ 0).
+Once the source guards its logarithm (`if !(arg > 0) { return +Inf }`) the first disjunct — the
+property for all inputs — is what gets proved.  Any third behaviour breaks the theorem. -/
+
+section special
+open FVal
+set_option linter.unusedSimpArgs false
+set_option linter.unreachableTactic false
+set_option linter.unusedTactic false
+set_option linter.unusedVariables false
+
+/-- the value cannot become a finite matrix entry -/
+def Safe (v : FVal) : Prop := v = FVal.nan ∨ isUncomputable v = true
+
+theorem safe_pinf : Safe FVal.pinf := by
+  right
+  unfold isUncomputable
+  simp
+
+/-- the unchanged code is *not* safe: 0 is an accepted entry -/
+theorem not_safe_zero : ¬ Safe (FVal.fin 0) := by
+  intro h
+  rcases h with h | h
+  · exact FVal.noConfusion h
+  · have h100 : Gen.c_NT_DIST_OVER.toNat = 100000 := by decide
+    unfold isUncomputable ntDistOver at h
+    rw [h100] at h
+    simp at h
+    norm_num at h
+
+/-- JC69 (with and without gamma): saturation (`p ≥ 3/4`) or no comparable site never gives a finite
+entry — or the source is the unchanged one, which returns 0 for `AAAA` vs `CCCC` -/
+theorem jc_undefined_never_small_or_witness :
+    (∀ (g : Bool) (a d t : ℝ), 0 < a → 0 ≤ d → 0 ≤ t → (t = 0 ∨ 3 / 4 ≤ d / t) →
+        Safe (Gen.jcDistance g (fin a) (fin d) (fin t)))
+    ∨ Gen.jcDistance false (fin 1) (fin 4) (fin 4) = fin 0 := by
+  first
+    | (right
+       unfold Gen.jcDistance
+       simp only [FVal.ofNat_eq, Nat.cast_ofNat, Nat.cast_one, Nat.cast_zero]
+       norm_num
+       done)
+    | (left
+       intro g a d t _ hd ht hu
+       suffices h : Gen.jcDistance g (fin a) (fin d) (fin t) = pinf by rw [h]; exact safe_pinf
+       unfold Gen.jcDistance
+       simp only [FVal.ofNat_eq, Nat.cast_ofNat, Nat.cast_one, Nat.cast_zero]
+       rcases eq_or_lt_of_le ht with h0 | hpos
+       · subst h0
+         rcases eq_or_lt_of_le hd with hd0 | hdpos
+         · subst hd0
+           simp
+         · simp [hdpos]
+       · have hne : t ≠ 0 := ne_of_gt hpos
+         have hu' : 3 / 4 ≤ d / t := by
+           rcases hu with h | h
+           · exact absurd h hne
+           · exact h
+         have : ¬ (0 < 1 - 4 * (d / t) / 3) := by linarith
+         simp [hne, this])
+
+/-- F81 (with and without gamma): `p ≥ b`, a single base in the alignment (`b = 0`) or no comparable
+site never gives a finite entry — or the source is the unchanged one (witness: 4 differences on 4
+sites with `b = 3/4` ↦ 0) -/
+theorem f81_undefined_never_small_or_witness :
+    (∀ (g : Bool) (a b d t : ℝ), 0 < a → 0 ≤ b → 0 ≤ d → 0 ≤ t → (t = 0 ∨ b = 0 ∨ b ≤ d / t) →
+        Safe (Gen.f81Distance g (fin a) (fin b) (fin d) (fin t)))
+    ∨ Gen.f81Distance false (fin 1) (fin (3 / 4)) (fin 4) (fin 4) = fin 0 := by
+  first
+    | (right
+       unfold Gen.f81Distance
+       simp only [FVal.ofNat_eq, Nat.cast_ofNat, Nat.cast_one, Nat.cast_zero]
+       norm_num
+       done)
+    | (left
+       intro g a b d t _ hb hd ht hu
+       suffices h : Gen.f81Distance g (fin a) (fin b) (fin d) (fin t) = pinf by rw [h]; exact safe_pinf
+       unfold Gen.f81Distance
+       simp only [FVal.ofNat_eq, Nat.cast_ofNat, Nat.cast_one, Nat.cast_zero]
+       rcases eq_or_lt_of_le ht with h0 | hpos
+       · subst h0
+         rcases eq_or_lt_of_le hd with hd0 | hdpos
+         · subst hd0
+           simp
+         · rcases eq_or_lt_of_le hb with hb0 | hbpos
+           · subst hb0; simp [hdpos]
+           · simp [hdpos, hbpos.le]
+       · have hne : t ≠ 0 := ne_of_gt hpos
+         have hp0 : 0 ≤ d / t := div_nonneg hd ht
+         rcases eq_or_lt_of_le hb with hb0 | hbpos
+         · subst hb0
+           rcases eq_or_lt_of_le hp0 with hp | hp
+           · simp [hne, ← hp]
+           · simp [hne, hp]
+         · have hbne : b ≠ 0 := ne_of_gt hbpos
+           have hu' : b ≤ d / t := by
+             rcases hu with h | h | h
+             · exact absurd h hne
+             · exact absurd h hbne
+             · exact h
+           have : ¬ (0 < 1 - d / t / b) := by
+             rw [not_lt, sub_nonpos, le_div_iff₀ hbpos]
+             linarith
+           simp [hne, hbne, this])
+
+/-- matrix assembly: when every evaluation of the pair's estimator is `Safe`, the cell is NaN or the
+matrix-wide substitute — never one of the estimator's own finite values (all variants of the model) -/
+theorem undefined_never_small_matrix (v : Variant) (entries : List ((Nat × Nat) × FVal)) (i j : Nat)
+    (hne : ∃ e ∈ entries, samePair e.1 i j = true)
+    (hsafe : ∀ e ∈ entries, samePair e.1 i j = true → Safe e.2) :
+    cell v entries i j = FVal.nan ∨ cell v entries i j = substitute v entries := by
+  unfold cell
+  by_cases hany : (entries.filter fun e => samePair e.1 i j).any (fun e => isUncomputable e.2) = true
+  · right; simp only [hany, if_true]
+  · left
+    simp only [hany, Bool.false_eq_true, if_false]
+    obtain ⟨e0, he0, hs0⟩ := hne
+    have hmem0 : e0 ∈ entries.filter fun e => samePair e.1 i j := List.mem_filter.mpr ⟨he0, hs0⟩
+    cases hl : (entries.filter fun e => samePair e.1 i j).getLast? with
+    | none =>
+      rw [List.getLast?_eq_none_iff] at hl
+      rw [hl] at hmem0
+      exact absurd hmem0 (by simp)
+    | some e =>
+      have hmem : e ∈ entries.filter fun e => samePair e.1 i j := List.mem_of_getLast? hl
+      obtain ⟨hin, hs⟩ := List.mem_filter.mp hmem
+      rcases hsafe e hin hs with hnan | hunc
+      · exact hnan
+      · exfalso
+        apply hany
+        rw [List.any_eq_true]
+        exact ⟨e, hmem, hunc⟩
+
+private theorem maxAccepted_fin (vals : List FVal) : ∃ m : ℝ, 0 ≤ m ∧ maxAccepted vals = fin m := by
+  unfold maxAccepted
+  apply foldl_inv (fun mx : FVal => ∃ m : ℝ, 0 ≤ m ∧ mx = fin m)
+  · exact ⟨0, le_refl 0, by simp⟩
+  · intro st d _ hp
+    obtain ⟨m, hm, rfl⟩ := hp
+    by_cases hu : isUncomputable d = true
+    · simp only [hu, if_true]; exact ⟨m, hm, rfl⟩
+    · simp only [hu, Bool.false_eq_true, if_false]
+      cases d with
+      | nan => exact ⟨m, hm, by simp⟩
+      | pinf => exact absurd (by unfold isUncomputable; simp) hu
+      | ninf => exact ⟨m, hm, by simp⟩
+      | fin x =>
+        by_cases hx : m < x
+        · exact ⟨x, by linarith, by simp [hx]⟩
+        · exact ⟨m, hm, by simp [hx]⟩
+
+/-- the repaired assembly never substitutes a zero or negative value: NaN when no accepted entry is
+positive, else twice the (positive) maximum -/
+theorem substitute_repaired_pos_or_nan (entries : List ((Nat × Nat) × FVal)) :
+    substitute Variant.repaired entries = FVal.nan ∨ ∃ x : ℝ, 0 < x ∧ substitute Variant.repaired entries = fin x := by
+  unfold substitute
+  obtain ⟨m, hm, hmx⟩ := maxAccepted_fin (entries.map (·.2))
+  simp only [hmx, Variant.repaired, Bool.true_and, FVal.ofNat_eq, Nat.cast_zero, Nat.cast_ofNat, FVal.eqb_fin,
+    decide_eq_true_eq]
+  by_cases h0 : m = 0
+  · left; simp [h0]
+  · right
+    refine ⟨2 * m, ?_, ?_⟩
+    · have : 0 < m := lt_of_le_of_ne hm (Ne.symm h0)
+      linarith
+    · simp [h0]
+
+/-- … whereas the unchanged assembly substitutes `2 * 0 = 0` when every pair is undefined
+(`AAAA` vs `GGGG` under K2P: the estimator returns `+Inf`, the matrix reports 0) -/
+theorem substitute_asIs_zero_witness : substitute Variant.asIs [((0, 1), FVal.pinf)] = fin 0 := by
+  unfold substitute maxAccepted isUncomputable
+  simp [Variant.asIs]
+
+end special
+
 end Gv.Props.C07
